@@ -1,7 +1,7 @@
 """C09 — literals denote their written values or are rejected (DESIGN §3 C09)."""
 import re
 from core import Rule
-from absint import Interp, Obj, Term, Variant, Panic, CannotEstablish
+from absint import _Return, Interp, Obj, Term, Variant, Panic, CannotEstablish
 import synq
 from synq import canon, walk
 
@@ -437,28 +437,60 @@ def r09f(ctx, run):
                 why = "128-bit literal materialised at type %s" % c08.fmt(t.args[0])
         run.check(good, sfn.site(arm["ln"]), "literal of type %s -> %s" % (name, c08.fmt(t)[:70]), sfn.qual, "literal:" + name, sfn.file, arm["ln"],
                   "an integer literal given type %s is materialised as %s: %s" % (name, c08.fmt(t)[:90], why))
-    # constant data (globals): (n as uW).to_{le,be}_bytes() with W = the type's width
+    # constant data (globals): the IntLiteral arm of the constant-data builder evaluated for every numeric type the literal can be given (floats
+    # included: `h : f64 : 3` gives the literal the type f64) and both byte orders: the bytes must be the written value encoded AT THAT TYPE
     cd = [f for f in ctx.syn.fns_in("codegen/src/compiler/mod.rs") + ctx.syn.fns_in(CG) if f.body is not None and any(
-        h and h.endswith("Expr::IntLiteral") and "to_le_bytes" in canon(b) for m in synq.matches_on(f.body) for h, p, g, b, arm in synq.match_table(m))]
+        h and h.endswith("Expr::IntLiteral") and "_bytes" in canon(b) for m in synq.matches_on(f.body) for h, p, g, b, arm in synq.match_table(m))]
     if not cd:
         raise LookupError("constant-data builder arm for Expr::IntLiteral")
     f = cd[0]
-    for m in synq.matches_on(f.body):
-        for h, p, g, b, arm2 in synq.match_table(m):
-            if h and h.endswith("Expr::IntLiteral") and "to_le_bytes" in canon(b):
-                inner = [x for x in synq.matches_on(b)]
-                for h2, p2, g2, b2, a2 in synq.match_table(inner[0]):
-                    pc = canon(p2).replace(" ", "")
-                    mm = re.match(r"\((\d+),Endianness::(Little|Big)\)", pc)
-                    if not mm:
-                        continue
-                    w, en = int(mm.group(1)), mm.group(2)
-                    bc = canon(b2).replace(" ", "")
-                    good = ("as u%d)" % w).replace(" ", "") in bc.replace(" ", "") or ("asu%d)" % w) in bc
-                    good = good and (("to_le_bytes" in bc) == (en == "Little")) and (("to_be_bytes" in bc) == (en == "Big"))
-                    run.check(good, f.site(a2["ln"]), "constant data: %d-bit %s-endian literal = (n as u%d).to_%s_bytes()" % (w, en.lower(), w, "le" if en == "Little" else "be"),
-                              f.qual, "const-literal:%d:%s" % (w, en), f.file, a2["ln"],
-                              "a %d-bit literal in constant data must be written as (n as u%d).to_%s_bytes(); found %s" % (w, w, "le" if en == "Little" else "be", canon(b2)[:60]))
+    carm = [(p, b, arm2) for m in synq.matches_on(f.body) for h, p, g, b, arm2 in synq.match_table(m) if h and h.endswith("Expr::IntLiteral") and "_bytes" in canon(b)][0]
+    cvar = [x["n"] for x in walk(carm[0]) if x.get("k") == "p_ident"][0]
+
+    class CI(LI):
+        def __init__(self, nt, endian):
+            LI.__init__(self, nt)
+            self.endian = endian
+            self.funcs["Box::new"] = lambda i, a: a[0]
+
+        def default_method(self, recv, m, args, e):
+            if m in ("to_le_bytes", "to_be_bytes", "to_ne_bytes"):
+                return Term(m, recv)
+            if m == "endianness":
+                return Variant("Endianness::" + self.endian)
+            if m in ("isa",):
+                return Term("isa")
+            if m in ("into", "into_boxed_slice", "to_vec"):
+                return recv
+            return LI.default_method(self, recv, m, args, e)
+    for cl, float_, signed in [("I8", False, True), ("I8", False, False), ("I16", False, True), ("I16", False, False), ("I32", False, True), ("I32", False, False),
+                               ("I64", False, True), ("I64", False, False), ("I128", False, True), ("I128", False, False), ("F32", True, True), ("F64", True, True)]:
+        for endian in ("Little", "Big"):
+            nt = c08.numty(cl, float_, signed)
+            it = CI(nt, endian)
+            env = {"self": Obj("self", tys=Term("tys"), loc=Term("loc"), ptr_ty=Term("ptr_ty"), module=Obj("module")), cvar: n, "expr": Term("expr"), "loc": Term("loc")}
+            name = ("f" if float_ else ("i" if signed else "u")) + cl[1:]
+            key = "const-literal:%s:%s" % (name, endian)
+            try:
+                try:
+                    t = it.eval(carm[1], env)
+                except _Return as r:
+                    t = r.v
+                if isinstance(t, Variant) and t.last == "Ok":
+                    t = t.payload["0"]
+            except (Panic, CannotEstablish) as c:
+                run.finding(f.qual, key, f.file, carm[2]["ln"], "cannot establish the constant data of an integer literal of type %s (%s-endian): %s" % (name, endian.lower(), getattr(c, "what", c)))
+                continue
+            w = int(cl[1:])
+            want_m = "to_le_bytes" if endian == "Little" else "to_be_bytes"
+            casts = ("as_f%d" % w,) if float_ else ("as_u%d" % w, "as_i%d" % w)
+            good = isinstance(t, Term) and t.op == want_m and len(t.args) == 1 and isinstance(t.args[0], Term) and t.args[0].op in casts and t.args[0].args[0] == n
+            if not good and not float_ and w == 64 and isinstance(t, Term) and t.op == want_m and t.args and t.args[0] == n:
+                good = True     # the literal already is a u64
+            run.check(good, f.site(carm[2]["ln"]), "constant data of a literal of type %s, %s-endian: %s" % (name, endian.lower(), c08.fmt(t)[:60]), f.qual, key, f.file, carm[2]["ln"],
+                      "an integer literal given type %s is written into constant data as %s; it must be (n as %s).%s(): %s" % (
+                          name, c08.fmt(t)[:80], casts[0][3:], want_m,
+                          "a float-typed global initialised with an integer literal holds the integer's bit pattern, not the number" if float_ else "wrong width or byte order"))
 
 
 def rules(ctx):
